@@ -95,12 +95,12 @@ func main() {
 				ts = time.Date(tt.Year(), tt.Month(), 1, 0, 0, 0, 0, loc).Unix()
 				got := api.VerifLodShiftTimestamp(ts, month, 0, loc)
 				input := fmt.Sprintf("shift-month ts=%d zone=%s", ts, loc)
-				o.Case(input, fmt.Sprintf("CShift %d %d 0 %s", ts, month, vu.Z(got)), true, "shift-month0")
+				o.Case(input, fmt.Sprintf("CShift %s %d 0 %s", vu.Z(ts), month, vu.Z(got)), true, "shift-month0")
 				continue
 			}
 			got := api.VerifLodShiftTimestamp(ts, step, shift, time.UTC)
 			input := fmt.Sprintf("shift ts=%d step=%d shift=%d", ts, step, shift)
-			line := o.Case(input, fmt.Sprintf("CShift %d %d %s %s", ts, step, vu.Z(shift), vu.Z(got)), shift != 0, "shift")
+			line := o.Case(input, fmt.Sprintf("CShift %s %d %s %s", vu.Z(ts), step, vu.Z(shift), vu.Z(got)), shift != 0, "shift")
 			if got != ts+shift {
 				o.Fail("shift_is_addition", line, input)
 			}
